@@ -154,6 +154,7 @@ Section WithCheck.
   Inductive rop :=
   | RAdd (regex : Z) (op : opname) (cfg : option ocfg) (alg : akey)
   | RLoadSelf                       (* load(get_recipe()) into a fresh manager *)
+  | RLoadEmpty                      (* load([]) into the SAME (used) manager: resets it *)
   | RGet (op : opname) (scope : Z)
   | RNeedCal.
 
@@ -180,6 +181,11 @@ Section WithCheck.
         match load (get_recipe s) with
         | Ok s' => (s', OUnit)
         | Err e => (s, OErr e)   (* the harness loads into a fresh manager *)
+        end
+    | RLoadEmpty =>
+        match load [] with
+        | Ok s' => (s', OUnit)
+        | Err e => (s, OErr e)
         end
     | RGet op scope => let '(a, c) := get s op scope in (s, OGet a c)
     | RNeedCal => (s, OBool (need_calibration s))
